@@ -3,6 +3,7 @@
 package sstables
 
 import (
+	"github.com/thomasjungblut/go-sstables/sstables/proto"
 	"errors"
 
 	"github.com/thomasjungblut/go-sstables/skiplist"
@@ -80,7 +81,12 @@ var vBounds = [][]byte{{}, {'0'}, {'a'}, {'b'}, {'c'}}
 // H_C08_Stack: stacked reader point lookups and scans = latest-wins union.
 func H_C08_Stack() {
 	nT, nK := vDims()
-	_, readers, newest, newestVal, anywhere := vStack(nT, nK)
+	tabs, readers, newest, newestVal, anywhere := vStack(nT, nK)
+	if vrt.Choose("legacy", 2) == 1 {
+		// the oldest table is in the first layout: it has no metadata file and reports empty metadata
+		tabs[0].meta = &proto.MetaData{}
+		vrt.Tag("oldest-table-without-metadata")
+	}
 	s := NewSuperSSTableReader(readers, vScaledComparator{})
 
 	for ki := 0; ki < nK; ki++ {
